@@ -78,7 +78,10 @@ pub enum Cmd {
     /// opens after each evaluation and drops at once
     Watch { p: usize, attach: bool },
     /// p copies q's copy of incarnation `member` through reset_node_state_if_update
-    Catchup { p: usize, member: usize, q: usize },
+    /// claim_collected: the application supplies q's copy with the watermark raised to its max
+    /// version (an inconsistent fetched state, which the catch-up entry point has to cope with);
+    /// only generated for runs whose oracles do not depend on honest watermarks
+    Catchup { p: usize, member: usize, q: usize, #[serde(default)] claim_collected: bool },
     /// hostile bytes delivered to `to` (hex)
     Inject { to: usize, hex: String },
     /// SYN a->b and its replies delivered back to back
